@@ -1,3 +1,78 @@
-import QuantityModel.Model.Text
+/-
+C18 — construction is exact and the text form round-trips.
+
+Exactness of construction: the model's amounts are rationals and the
+constructor only rounds to a quantum (C05); for floats the harness feeds the
+exact binary value (`float.as_integer_ratio`) and checks that the real
+constructor holds exactly that value.  Text: `renderQty` is `str(q)` =
+`format(q)`; `parseQtyStr` is the string branch of the constructor.  The
+literal grammar beyond the modelled subset is Python's (trusted, not generated).
+-/
+import QuantityModel.Proofs.Text
+import QuantityModel.Model.Quantity
 namespace QM.Props.C18
+open QM
+
+/-- the digits printed for a natural number read back as that number -/
+theorem digits_round_trip (n : Nat) : parseNat (natDigits n) = some n := parseNat_natDigits n
+
+/-- `str` of a Decimal amount with internal value `v` and ANY precision `p`
+(trailing zeros included) parses back to exactly `v / 10^p` -/
+theorem decimal_text_round_trip (v : ℤ) (p : Nat) :
+    parseAmountStr (renderDec v p) = .ok ((v : ℚ) / (10 : ℚ) ^ p) := parse_render_dec v p
+
+/-- `str` of a Fraction amount (`n/d`, or `n` when integral) parses back to
+exactly that rational -/
+theorem fraction_text_round_trip (q : ℚ) : parseAmountStr (renderFrac q) = .ok q :=
+  parse_render_frac q
+
+/-- `str(q)` is the amount, one blank and the unit symbol; parsing it yields
+exactly the amount's value and that symbol — symbols with inner blanks
+included (the text is split at the first blank) -/
+theorem quantity_text_round_trip (a : AmountRepr) (sym : String)
+    (hs : stripChars sym.toList = sym.toList) :
+    parseQtyStr (renderQty a sym) = .ok (a.val, some sym.toList) :=
+  parse_render_qty a sym.toList hs
+
+/-- hence: parsing `str(q)` through the generic factory or through `q`'s own
+type re-creates `q` (same type, unit and amount) when the type has no quantum -/
+theorem parse_str_recreates_quantity (s : RegState) (d : Rounding) (a : AmountRepr) (u : Nat)
+    (hq : s.unitQuantum u = none) :
+    s.mkQty d none a.val u = .ok ⟨a.val, u⟩ ∧
+    s.mkQty d (some (s.unitCls u)) a.val u = .ok ⟨a.val, u⟩ := by
+  constructor
+  · unfold RegState.mkQty RegState.mkQty.go; simp [hq]
+  · unfold RegState.mkQty RegState.mkQty.go; simp [hq]
+
+/-- malformed amounts are QuantityError -/
+theorem malformed_amounts_rejected :
+    parseAmountStr "abc".toList = .error .QuantityError ∧
+    parseAmountStr "".toList = .error .QuantityError ∧
+    parseAmountStr "1.5.2".toList = .error .QuantityError ∧
+    parseAmountStr "1/0".toList = .error .QuantityError ∧
+    parseAmountStr "--1".toList = .error .QuantityError ∧
+    parseAmountStr "1e".toList = .error .QuantityError := by
+  refine ⟨?_, ?_, ?_, ?_, ?_, ?_⟩ <;> decide +kernel
+
+/-- a tab is not a separator: the token then contains the symbol and is not a number -/
+theorem tab_is_not_a_separator :
+    (parseQtyStr "1.5\tm".toList).toOption = none := by decide +kernel
+
+/-- the accepted literal forms denote what they say -/
+theorem literal_forms :
+    parseAmountStr "-1.50".toList = .ok (-3 / 2) ∧
+    parseAmountStr ".5".toList = .ok (1 / 2) ∧
+    parseAmountStr "5.".toList = .ok 5 ∧
+    parseAmountStr "1.25E-2".toList = .ok (1 / 80) ∧
+    parseAmountStr "+7".toList = .ok 7 ∧
+    parseAmountStr "10/4".toList = .ok (5 / 2) := by
+  refine ⟨?_, ?_, ?_, ?_, ?_, ?_⟩ <;> decide +kernel
+
+/-- leading blanks and several blanks before the symbol are ignored -/
+theorem surrounding_blanks_ignored :
+    parseQtyStr "   2.5   km/h  ".toList = .ok (5 / 2, some "km/h".toList) := by decide +kernel
+
+/-- non-vacuity of the round trip on a compound, non-ASCII symbol -/
+example : String.ofList (renderQty (.dec (-150) 2) "µm/s²") = "-1.50 µm/s²" := by decide +kernel
+
 end QM.Props.C18
